@@ -1154,3 +1154,79 @@ let () =
       hex_of_bytes (pack_msb (nat_of_int (List.length bits + 2)) bits [])
     | _ -> "badargs")
 
+(* ---- WBRIMPL: brotli.Reader (Brotli/Impl.v) ------------------------------------------------------
+   brimpl <nseg> { <hex|-> <mode 0|1> <bsz> <reads|-> <sched> }*
+   per segment (joined by |) the Read calls (joined by ,):
+   <hex>@<err>@<InputOffset>@<OutputOffset>[@<state>]   (state while err = nil) *)
+let brimpl_blk (b : bdk) : string =
+  Printf.sprintf "%s:%s:%s:%s:%d" (n_to_string b.k_numTypes) (z_to_string b.k_typeLen)
+    (n_to_string b.k_t0) (n_to_string b.k_t1) (int_of_nat b.k_len)
+
+let brimpl_state (s : rst) : string =
+  let step = match s.zr_step with
+    | KStreamHeader -> "streamHeader" | KBlockHeader -> "blockHeader"
+    | KRawData -> "rawData" | KCommands -> "commands" in
+  let b2s b = if b then "1" else "0" in
+  let (((d0, d1), d2), d3) = s.zr_dists in
+  let p = s.zr_rd in
+  let d = s.zr_dict in
+  String.concat ";" [
+    step ^ ":" ^ n_to_string s.zr_stepState;
+    String.concat ":" [z_to_string s.zr_blkLen; z_to_string s.zr_insLen; z_to_string s.zr_cpyLen; b2s s.zr_last];
+    brimpl_blk s.zr_iac; brimpl_blk s.zr_lit; brimpl_blk s.zr_dst;
+    String.concat ":" [n_to_string s.zr_litTypeLen; n_to_string s.zr_litMapLen; n_to_string s.zr_cmode];
+    String.concat ":" [n_to_string s.zr_distTypeLen; n_to_string s.zr_distMapLen];
+    String.concat ":" [z_to_string s.zr_dist; z_to_string d0; z_to_string d1; z_to_string d2; z_to_string d3; b2s s.zr_distZero];
+    String.concat ":" [n_to_string s.zr_npostfix; n_to_string s.zr_ndirect];
+    string_of_int (List.length s.zr_word);
+    String.concat ":" [n_to_string p.p_bufBits; n_to_string p.p_numBits; z_to_string p.p_offset;
+                       string_of_int (List.length p.p_peek); z_to_string p.p_discard; n_to_string p.p_fed];
+    String.concat ":" [z_to_string d.d_len; z_to_string d.d_wr; z_to_string d.d_rd; b2s d.d_full] ]
+
+(* buffer sizes as unary numbers, shared between calls *)
+let brimpl_nat_memo : (int, nat) Hashtbl.t = Hashtbl.create 64
+let brimpl_nat (i : int) : nat =
+  match Hashtbl.find_opt brimpl_nat_memo i with
+  | Some n -> n
+  | None -> let n = nat_of_int i in Hashtbl.replace brimpl_nat_memo i n; n
+let brimpl_sched s = if s = "-" then [] else List.map (fun x -> brimpl_nat (int_of_string x)) (String.split_on_char ',' s)
+
+let () =
+  register "brimpl" (fun args -> match args with
+    | nseg :: rest ->
+      let dct = get_brdict () in
+      let dl = String.length dct in
+      let dict_byte (off : n) : n =
+        let i = int_of_n off in if i < dl then byte_n.(Char.code dct.[i]) else N0 in
+      let dict_len = n_of_int dl in
+      let nseg = int_of_string nseg in
+      let rec go k rest (st : rst option) acc =
+        if k = nseg then List.rev acc else
+        match rest with
+        | hex :: mode :: bsz :: reads :: sched :: rest' ->
+          let data = if hex = "-" then [] else bytes_of_hex hex in
+          let reads = br_ints reads in
+          let s0 = (match st with
+            | None -> br_new data (mode = "1") reads
+            | Some s -> br_reset s data (mode = "1") reads) in
+          let bszn = nat_of_int (int_of_string bsz) in
+          let rec calls s sch out =
+            match sch with
+            | [] -> (List.rev out, Some s)
+            | n :: sch' ->
+              (match br_read bszn dict_len dict_byte s n with
+               | RdRet (bs, e, s') ->
+                 let base = Printf.sprintf "%s@%s@%s@%s" (hex_of_bytes bs) (oerr_name e)
+                              (z_to_string s'.zr_inOff) (z_to_string s'.zr_outOff) in
+                 (match e with
+                  | None -> calls s' sch' ((base ^ "@" ^ brimpl_state s') :: out)
+                  | Some _ -> (List.rev (base :: out), Some s'))
+               | RdPanic -> (List.rev ("panic" :: out), None)
+               | RdHang -> (List.rev ("hang" :: out), None)) in
+          let (out, fin) = calls s0 (brimpl_sched sched) [] in
+          (match fin with
+           | Some s -> go (k + 1) rest' (Some s) (String.concat "," out :: acc)
+           | None -> List.rev (String.concat "," out :: acc))
+        | _ -> List.rev ("badargs" :: acc) in
+      String.concat "|" (go 0 rest None [])
+    | _ -> "badargs")
